@@ -287,6 +287,55 @@ def recompute_standard(logls, nlive, n_iter, expectation, finalised):
     return dict(logZ=float(logZ_trap if finalised else rect), logZ_rect=float(rect), info=float(info), log_w=logw)
 
 
+def _same(a, b, path=""):
+    """First difference between two result structures (None if none): reads must be pure."""
+    if isinstance(a, dict) and isinstance(b, dict):
+        if list(a.keys()) != list(b.keys()):
+            return f"{path}: keys {list(a.keys())[:8]} vs {list(b.keys())[:8]}"
+        for k in a:
+            r = _same(a[k], b[k], f"{path}/{k}")
+            if r:
+                return r
+        return None
+    if isinstance(a, (list, tuple)) and isinstance(b, (list, tuple)):
+        if len(a) != len(b):
+            return f"{path}: length {len(a)} vs {len(b)}"
+        for i, (x, y) in enumerate(zip(a, b)):
+            r = _same(x, y, f"{path}[{i}]")
+            if r:
+                return r
+        return None
+    if isinstance(a, np.ndarray) or isinstance(b, np.ndarray):
+        a_, b_ = np.asarray(a), np.asarray(b)
+        if a_.dtype != b_.dtype or a_.shape != b_.shape or a_.tobytes() != b_.tobytes():
+            return f"{path}: arrays differ"
+        return None
+    if type(a) is not type(b):
+        return f"{path}: {type(a).__name__} vs {type(b).__name__}"
+    if isinstance(a, float) and a != a and b != b:
+        return None
+    return None if a == b else f"{path}: {a!r} vs {b!r}"
+
+
+def check_repeated_reads(ns, errs):
+    """The result dictionary and the weights read twice must be identical (no read has a side effect)."""
+    try:
+        d1 = ns.get_result_dictionary()
+        w1 = np.array(ns.log_posterior_weights, copy=True) if hasattr(ns, "log_posterior_weights") else None
+        d2 = ns.get_result_dictionary()
+        w2 = np.array(ns.log_posterior_weights, copy=True) if hasattr(ns, "log_posterior_weights") else None
+    except Exception as e:
+        errs.append((f"reading-the-results-twice-raises-{type(e).__name__}", str(e)[:200]))
+        return
+    for k in ("sampling_time", "history"):
+        d1.pop(k, None), d2.pop(k, None)
+    r = _same(d1, d2, "result")
+    if r:
+        errs.append(("result-dictionary-changes-between-two-reads", r))
+    if w1 is not None and w1.tobytes() != w2.tobytes():
+        errs.append(("posterior-weights-change-between-two-reads", ""))
+
+
 def check_std_results(fs, model, errs, capped=False, tol=1e-9):
     """C05 oracle for the standard sampler: everything recomputed from the returned arrays."""
     ns = fs.ns
@@ -296,6 +345,7 @@ def check_std_results(fs, model, errs, capped=False, tol=1e-9):
     def err(c, detail=""):
         errs.append((c, str(detail)[:400]))
 
+    check_repeated_reads(ns, errs)
     nlive = ns.nlive
     finalised = bool(ns.finalised)
     if finalised and capped and ns.condition > ns.tolerance:
@@ -720,6 +770,7 @@ def check_ins_results(fs, model, errs, tol=1e-9):
     def err(c, d=""):
         errs.append((c, str(d)[:400]))
 
+    check_repeated_reads(ns, errs)
     samples = np.asarray(fs.nested_samples)
     hist = ns.history
     n_expected = ns.n_initial + int(np.sum(hist["n_added"]))
